@@ -155,7 +155,7 @@ def render_step(st):
     if op in ("new_rows",):
         return f"{lhs}RaggedArray({st['rows']}, dtype={st['dtype']})"
     if op == "new_flat":
-        return f"{lhs}RaggedArray({st['flat']}, {st['lengths']}) [{st['dtype']}]"
+        return f"{lhs}RaggedArray({'np.frombuffer(bytearray) ' if st.get('via') else ''}{st['flat']}, {st['lengths']}) [{st['dtype']}]"
     if op == "new_np":
         return f"{lhs}from_numpy_array({st['matrix']} shape {st['shape']}) [{st['dtype']}]"
     if op in ("ufunc2", "pyop2"):
